@@ -749,10 +749,14 @@ fn generate_output(
 	let mut cmd = cmd.spawn()?;
 	if let Some(full_ir) = generated_ir
 	{
-		cmd.stdin
-			.as_mut()
-			.context("failed to pipe")?
-			.write_all(full_ir.as_bytes())?;
+		let stdin = cmd.stdin.as_mut().context("failed to pipe")?;
+		match stdin.write_all(full_ir.as_bytes())
+		{
+			// The backend has stopped reading. Whether that is a failure
+			// is for its exit status to say.
+			Err(error) if error.kind() == std::io::ErrorKind::BrokenPipe => (),
+			result => result?,
+		}
 	}
 	let status = cmd.wait()?;
 	if is_lli
